@@ -22,10 +22,20 @@ import (
 	"flytverif/instr"
 )
 
-const (
-	verifDir = "/verif"
-	repoDir  = "/repo"
-)
+const repoDir = "/repo"
+
+// verifDir is the root of the verification tree this binary belongs to
+// (<root>/bin/flytmc): /verif for the registered checks, a snapshot directory
+// for background runs.
+var verifDir = func() string {
+	if exe, err := os.Executable(); err == nil {
+		root := filepath.Dir(filepath.Dir(exe))
+		if _, err := os.Stat(filepath.Join(root, "mc", "harness")); err == nil {
+			return root
+		}
+	}
+	return "/verif"
+}()
 
 var goEnv = []string{"GOFLAGS=-mod=mod", "GOPROXY=off", "GOSUMDB=off", "GOTOOLCHAIN=local", "CGO_ENABLED=0"}
 
